@@ -39,9 +39,9 @@ def build(cs):
         dims = [('y', 2), ('t', 2), ('x', 3)]
     for n, ln in dims:
         d = f.createDimension(n, ln)
-        if n == 't' and ud != 'none':
+        if n == 't' and ud not in ('none', 'ytwo'):
             d.setunlimited(True)
-        if n == 'y' and ud == 'two':    # a second unlimited dimension
+        if n == 'y' and ud in ('two', 'ytwo'):  # a second / another unlimited dimension
             d.setunlimited(True)
     f.createDimension('nc', 4)
     dt = cs['dt']
@@ -143,6 +143,12 @@ def run_case(cs):
         shutil.rmtree(tmp, ignore_errors=True)
 
 
+def run_history(seq):
+    """Several saves in ONE process, in order (spec/NcSession.tla): every save
+    is validated like a single one - what is stored depends on the file only."""
+    return [run_case(cs) for cs in seq]
+
+
 def gen_cases(rnd, tier, fillcfgs):
     cases = []
     # every fill configuration for masked float / int variables
@@ -224,6 +230,51 @@ def run(tier):
         if '_crash' in t or '_hang' in t:
             raise Machinery('save/reopen case failed: %r %r' % (c, t))
         traces.append(t)
+    # histories: several saves in one process (NcSession: HistoryFree)
+    r3 = need_ok(run_tlc('NcSession_MC', workers=1, timeout=300,
+                         env={'PNC_DEV': 'none', 'PNC_EMIT': '1'}),
+                 'NcSession_MC')
+    out.add_tlc('NcSession_MC: what is stored depends on the file only, over '
+                'all save histories of 3 files', r3)
+    if r3.violated:
+        out.model_violation(r3, 'NcSession_MC')
+    r4 = need_ok(run_tlc('NcSession_MC', workers=1, timeout=300,
+                         env={'PNC_DEV': 'unlim', 'PNC_EMIT': '0'}),
+                 'NcSession_MC dev')
+    out.add_tlc('NcSession_MC with a writer that remembers record dimensions '
+                '(sharpness)', r4, 'must violate: %s' % r4.violated)
+    if not r4.violated:
+        raise Machinery('NcSession invariant is not sharp')
+    hists = unique([p['hist'] for p in r3.prints
+                    if isinstance(p, dict) and 'hist' in p])
+    if len(hists) != 64:
+        raise Machinery('expected 64 save histories, got %d' % len(hists))
+    if tier == 'quick':
+        hists = rnd.sample(hists, 24)
+    seqs = []
+    tid = len(cases)
+    for h in hists:
+        seq = []
+        for u in h:
+            tid += 1
+            two = sorted(u) == ['t', 'y']
+            seq.append({'dt': rnd.choice(['f', 'i', 'd']),
+                        'masked': rnd.choice(['no', 'some']),
+                        'fill': rnd.choice(fillcfgs), 'rank': '3d',
+                        'unlim': 'two' if two else
+                        ('first' if u == ['t'] else
+                         ('ytwo' if u == ['y'] else 'none')),
+                        'flavour': 'NETCDF4' if (two or u == ['y'])
+                        else rnd.choice(FLAVOURS),
+                        'comp': rnd.choice([0, 1]), 'zero': False,
+                        'tid': tid, 'inhistory': True})
+        seqs.append(seq)
+    hres = run_cases(run_history, seqs, timeout=300, per_child=1)
+    for sq, ts in zip(seqs, hres):
+        if isinstance(ts, dict):
+            raise Machinery('save history failed: %r %r' % (sq, ts))
+        traces.extend(ts)
+    out.cov['save_histories'] = len(seqs)
     out.cov['evaluations'] = len(traces)
     out.cov['saved_ok'] = sum(1 for t in traces if t['res'] == 'ok')
     out.cov['distinct_nontrivial'] = len(set(
